@@ -61,7 +61,7 @@ func xmlinReport(l xmlinLine) {
 		xmlinPipe = os.NewFile(3, "report")
 		// a runaway allocation must end this worker, not the machine
 		if os.Getenv("WZ_XMLIN_NOLIMIT") == "" {
-			lim := &syscall.Rlimit{Cur: 24 << 30, Max: 24 << 30}
+			lim := &syscall.Rlimit{Cur: 6 << 30, Max: 6 << 30}
 			syscall.Setrlimit(syscall.RLIMIT_AS, lim)
 		}
 	}
@@ -382,9 +382,10 @@ func (x *xmlinRun) call(name string) string {
 	case "UnmergeCells":
 		for _, t := range x.tables() {
 			rows, cols := t.GetRowCount(), t.GetColumnCount()
-			if rows > 0 && cols > 0 {
-				add(t.UnmergeCells(0, 0))
-				add(t.UnmergeCells(rows-1, cols-1))
+			for r := 0; r < rows && r < 8; r++ {
+				for c := 0; c < cols && c < 8; c++ {
+					add(t.UnmergeCells(r, c))
+				}
 			}
 		}
 	case "TableLook":
@@ -791,7 +792,7 @@ func xmlinFirstFatal(se string) string {
 var xmlinCur *xmlinWorker
 
 func xmlinLimits(in *xmlinInput) (time.Duration, time.Duration) {
-	base := 20
+	base := 10
 	if s := os.Getenv("WZ_XMLIN_LIMIT"); s != "" {
 		if n, err := strconv.Atoi(s); err == nil && n > 0 {
 			base = n
@@ -843,7 +844,8 @@ func runXmlIn(c Case, emit Emitter) {
 		} else {
 			w2.kill()
 			xmlinCur = nil
-			if out.status != first.status || len(out.calls) != len(first.calls) || out.status == "noise" {
+			// the same call failed both times: the second outcome (longer limit) is the one logged
+			if len(out.calls) != len(first.calls) || out.status == "noise" {
 				out.status = "noise"
 			}
 		}
